@@ -276,6 +276,18 @@ func c10(e *Env) {
 			return
 		}
 	}
+	// some runs: every backend node goes down once the proxies are up: what the proxy answers itself
+	// does not depend on a backend being reachable at that moment
+	if c.Choose("c10backend-down", 4) == 3 {
+		for _, n := range w.Nodes {
+			n.Crash()
+		}
+		w.RunUntil(func() bool { return false }, time.Duration(c.Choose("c10down-since", 20))*time.Second)
+		if w.Stopped() {
+			return
+		}
+		e.Res.Stats["probe.c10.system_tables_read_while_no_backend_is_reachable"]++
+	}
 	fail := func(sig, detail string) { w.Violate("c10", sig, detail) }
 	// expected tokens when they are computed: address order from the minimum token
 	expectTokens := map[string]string{}
